@@ -1010,12 +1010,19 @@ class KernelRun:
             await self.sched.initialize(self.res_spec)
             await self.tx("k reconcile", lambda: wf.reconcile_targets())
 
-    async def generate(self, cm, nops: int):
+    SCENARIOS = ("nested_chain", "deferred_wakeup", "resource_race", "detached_completion", "rerole",
+                 "amended_consumer_rerun", "hold_recycle")
+
+    async def generate(self, cm, nops: int, scenario: str | None = None):
+        """A history: boot, then (in the well-formed stream) one directed scenario with probability
+        0.64 or the one asked for, then `nops` random requests."""
         r = self.r
         await self.reset(cm)
         await self.define(boot=True)
         await self.pop()
-        if not self.exotic:
+        if scenario is not None:
+            await getattr(self, scenario)()
+        elif not self.exotic:
             k = r.random()
             if k < 0.2:
                 await self.nested_chain()
@@ -1041,6 +1048,34 @@ class KernelRun:
         fns = [f for f, w in menu for _ in range(w)]
         for _ in range(nops):
             await r.choice(fns)()
+
+
+async def run_scenarios(ctx, observer_factory, scenarios, *, quick=8, thorough=120, nops=25, salt="scenario"):
+    """Directed part of a property's oracle: each named scenario `quick`/`thorough` times, followed
+    by a short random tail, with the property's observer on the real database; the histories are
+    also compared with the model (a disagreement is reported like any other)."""
+    import contextlib
+
+    import common
+
+    n = quick if ctx.tier == "quick" else thorough
+    for name in scenarios:
+        for i in range(n):
+            r = ctx.rng(salt, name, i)
+            run_ = KernelRun(r, exotic=False)
+            run_.observers = [observer_factory(ctx, run_)]
+            async with contextlib.AsyncExitStack() as cm:
+                await run_.generate(cm, nops, scenario=name)
+            ctx.stats.count("scenario:" + name)
+            bad = compare(run_, common.run_driver(run_.lines))
+            ctx.stats.evaluations += len(run_.lines)
+            if bad is not None:
+                import kcorr
+
+                ctx.disagree("kernel:scenario:" + name,
+                             {"scenario": [name, i], "request_index": bad,
+                              "requests": [kcorr.decode_line(x) for x in run_.lines[: bad + 1]][-12:],
+                              "protocol_lines": run_.lines[: bad + 1]}, "model", run_.impl[bad])
 
 
 class SilentReporter:
